@@ -251,6 +251,9 @@ impl BlockWrite for RollingWriter {
             let (file_number, file) =
                 if let Some(next_file_number) = self.directory.files.next(&self.file_number) {
                     let file = self.directory.open_file(&next_file_number)?;
+                    // This file may be the empty leftover of a crash that happened between its
+                    // creation and its sizing: make sure it is fully sized before writing to it.
+                    file.set_len(FILE_NUM_BYTES as u64)?;
                     (next_file_number, file)
                 } else {
                     let next_file_number = self.directory.files.inc(&self.file_number);
